@@ -78,7 +78,9 @@ use autosar_data_specification::{AttributeSpec, CharacterDataSpec, ContentMode, 
 use fxhash::{FxBuildHasher, FxHashMap};
 use indexmap::IndexMap;
 pub use iterators::*;
+#[cfg(not(danielt_autosar_data_verif))]
 use parking_lot::RwLock;
+#[cfg(danielt_autosar_data_verif)] use crate::verif_lock::RwLock;
 use parser::ArxmlParser;
 use smallvec::SmallVec;
 use std::collections::HashSet;
@@ -95,6 +97,9 @@ mod elementraw;
 mod iterators;
 mod lexer;
 mod parser;
+#[cfg(danielt_autosar_data_verif)]
+#[doc(hidden)]
+pub mod verif_lock;
 
 // allow public access to the error sub-types
 pub use lexer::ArxmlLexerError;
